@@ -5,6 +5,25 @@ import json, os
 ROOT = os.path.dirname(os.path.dirname(os.path.abspath(__file__)))
 ALL = ["C%02d" % i for i in range(1, 21)]
 CHECKS = {
+  "C03": dict(
+    category="fault_enumeration",
+    technique="fault injection driven by property-based generation (proptest) plus exhaustive single-fault enumeration on small worlds; invariant, fault->error and metamorphic isolation oracles",
+    text="Every load call of the fault-free build is a fault position. Exhaustive layer: for base worlds with <= 7 load calls every (call x fault kind) single fault is injected; sampled layer: plans of 0-4 faults on larger worlds plus npm resolver failures. Oracles: no panic / no hang (watchdog), no pending entry in the serialised graph, every fired missing/error fault has an error entry with a referrer, and every module that does not depend on a faulted specifier is byte-identical to the fault-free build. Registry metadata faults are not injected yet.",
+    design_ref="DESIGN.md §4 C03",
+    note="Trusted: harness loader and fault plan (engine/src/harness.rs). Faults on registry metadata / content loads and the cache-only probe are not covered yet (no registry in these worlds).",
+  ),
+  "C04": dict(
+    technique="schedule exploration with a harness-owned scheduler: proptest-generated completion orders, re-runs with fresh hasher state, and exhaustive stateless DFS over all completion orders of small worlds; differential oracle against the identity schedule",
+    text="The loader's futures are gates released one at a time by the harness, so the interleaving is an input. Each world is built once ungated and then under drawn schedules and repeated runs; serialised graph, every error with its referrer, and lockfile writes must be identical. Exhaustive layer: all completion orders of small worlds (budgeted; evidence reports whether every tree was finished). Worlds have no jsr registry yet.",
+    design_ref="DESIGN.md §4 C04",
+    note="Trusted: the gate scheduler (engine/src/harness.rs::drive) and the pass-through executor. jsr metadata loads (the FuturesUnordered / HashMap-ordered parts) are not exercised until registry worlds are added.",
+  ),
+  "C14": dict(
+    technique="property-based metamorphic testing (proptest): every lookup API vs what walk([s]) reaches, over generated redirect chains, cycles, lockfile-seeded and loader-followed redirects",
+    text="Generated redirect topologies (chains up to 16 hops around the loader limit, cycles of every length, failures at the tail, loader-followed hops, lockfile seeds incl. stale ones) with the oracle 'all lookups agree with the walk': resolve idempotent, get / contains / try_get / specifiers / try_get_prefer_types / resolve_dependency compared with the first non-redirect entry walk([s]) yields. Termination by watchdog. Exploration only.",
+    design_ref="DESIGN.md §4 C14",
+    note="Trusted: ModuleGraph::walk as the reference for lookups (that is what the property states); the chain generator.",
+  ),
   "C15": dict(
     technique="property-based testing against a reference model (proptest): ModuleGraph::walk vs a set-based reachability model over the graph's recorded dependencies, all 36 option combinations per graph",
     text="Generated-input search with a reference-model oracle: the yielded set (both inclusions, no duplicates), the entry attached to each yielded specifier and the multiset of reported errors are compared with engine/src/refwalk.rs for every option combination, drawn root subsets and skip sets. Exploration: bounded by the generated graphs.",
